@@ -46,6 +46,12 @@ func NewNameMap(id int) *NameMap {
 		m.Fwd[k] = v
 		m.Rev[v] = k
 	}
+	// the canaries next to the exported directory ("root") have host names that begin with the root's own name: a
+	// confinement test that compares path prefixes without a separator takes them for part of the tree
+	for k, v := range map[string]string{"cs": "root.s", "cd": "rootd"} {
+		m.Fwd[k] = v
+		m.Rev[v] = k
+	}
 	return m
 }
 
@@ -125,13 +131,13 @@ func BuildWorld(base, tree string, nm *NameMap) (*World, error) {
 	if err := wr(base+"/ca", 0o644, []byte{1}); err != nil {
 		return nil, err
 	}
-	if err := wr(base+"/mid/cs", 0o644, []byte{1, 1}); err != nil {
+	if err := wr(base+"/mid/"+nm.comp("cs"), 0o644, []byte{1, 1}); err != nil {
 		return nil, err
 	}
-	if err := os.Mkdir(base+"/mid/cd", 0o755); err != nil {
+	if err := os.Mkdir(base+"/mid/"+nm.comp("cd"), 0o755); err != nil {
 		return nil, err
 	}
-	if err := wr(base+"/mid/cd/cf", 0o644, []byte{1}); err != nil {
+	if err := wr(base+"/mid/"+nm.comp("cd")+"/cf", 0o644, []byte{1}); err != nil {
 		return nil, err
 	}
 	for _, d := range def {
